@@ -52,6 +52,25 @@ def wb(fa, schema, d):
     return out.getvalue()
 
 
+def has_null_ns_inside(js, ns=""):
+    """A named type in the null namespace nested inside a namespaced one (A23)."""
+    if isinstance(js, list):
+        return any(has_null_ns_inside(b, ns) for b in js)
+    if isinstance(js, dict):
+        t = js.get("type")
+        if t in ("record", "error", "enum", "fixed"):
+            name = js.get("name", "")
+            own = name.rpartition(".")[0] if "." in name else js.get("namespace", ns)
+            if ns and not own:
+                return True
+            return any(has_null_ns_inside(f["type"], own) for f in js.get("fields", []) or [])
+        if t == "array":
+            return has_null_ns_inside(js["items"], ns)
+        if t == "map":
+            return has_null_ns_inside(js["values"], ns)
+    return False
+
+
 def one_case(sh, fa, rng, case):
     from fastavro.schema import to_parsing_canonical_form as tpcf
 
@@ -115,7 +134,7 @@ def one_case(sh, fa, rng, case):
     for k in kinds:
         sh.count("rewrite_kind_" + k)
     sh.case(h64(schema_shape(js), tuple(sorted(kinds))), bool(kinds) or not isinstance(js, str))
-    if "null_ns_inside_ns" in feats:
+    if "null_ns_inside_ns" in feats or has_null_ns_inside(js):
         sh.count("text_only_null_ns_inside_ns")
         return
     canon = json.loads(got)
@@ -137,15 +156,22 @@ def one_case(sh, fa, rng, case):
     except Exception:
         return
     st, b2 = guard(wb, fa, canon, v0)
-    if st == "exc" or b2 != b1:
-        sh.violation("canonical-schema-encodes-differently", "under the canonical form: %s, under the schema: %s" % (exc_name(b2) if st == "exc" else b2[:40].hex(), b1[:40].hex()),
-                     dict(info, datum=v0))
+    if st == "exc":
+        sh.violation("canonical-schema-encodes-differently", "under the canonical form the value cannot be written: %s" % exc_name(b2), dict(info, datum=v0))
         return
-    st, v1 = guard(fa.schemaless_reader, io.BytesIO(b1), canon)
-    st2, v2 = guard(fa.schemaless_reader, io.BytesIO(b2), copy.deepcopy(js))
-    if st == "exc" or st2 == "exc" or not RC.same(v1, v0) or not RC.same(v2, v0):
-        sh.violation("canonical-schema-decodes-differently", "%s / %s vs %s" % (printable(v1, 150), printable(v2, 150), printable(v0, 150)), dict(info, datum=v0))
-        return
+    if b2 != b1:
+        # the statement sets defaults aside: without them a value may conform to fewer record
+        # branches of a union and be written under another one; what must agree is the decoded value
+        sh.count("cross_encoded_bytes_differ_values_judged")
+    # bytes written under either schema decode to the same value under the other (each byte string is
+    # read under both; re-writing a read-back value may legitimately pick another record branch, C09)
+    for blob, wrote in ((b1, "the schema"), (b2, "its canonical form")):
+        st, va = guard(fa.schemaless_reader, io.BytesIO(blob), canon)
+        st2, vb = guard(fa.schemaless_reader, io.BytesIO(blob), copy.deepcopy(js))
+        if st == "exc" or st2 == "exc" or not RC.same(va, vb):
+            sh.violation("canonical-schema-decodes-differently", "bytes written under %s read as %s under the canonical form and %s under the schema"
+                         % (wrote, exc_name(va) if st == "exc" else printable(va, 150), exc_name(vb) if st2 == "exc" else printable(vb, 150)), dict(info, datum=v0))
+            return
     sh.count("cross_decoded")
 
 
